@@ -73,6 +73,11 @@ func selfTestResults(pc *propCheck, repo, verif string) []selfTestResult {
 				}
 			}
 			switch {
+			case m.Benign && code == 0 && !strings.Contains(buf.String(), "VIOLATION"):
+				r.Status = "silent"
+			case m.Benign:
+				r.Status = "missed"
+				r.Detail = fmt.Sprintf("false alarm on a behaviour-preserving edit (exit %d): %s", code, lastLines(buf.String(), 3))
 			case code == 1 && caught && strings.Contains(buf.String(), "VIOLATION property="+pc.id):
 				r.Status = "caught"
 			case code == 2:
@@ -102,7 +107,7 @@ func runSelfTest(pc *propCheck, repo, verif, tier string) int {
 	bad := 0
 	for _, r := range res {
 		fmt.Printf("%-7s %s  %s  %s\n", r.Status, r.ID, r.What, r.Detail)
-		if r.Status != "caught" {
+		if r.Status != "caught" && r.Status != "silent" {
 			bad++
 		}
 	}
